@@ -102,7 +102,8 @@ def int64Digits (signed neg : Bool) (base : Int) (s : Bytes) (off : Nat) : IntOu
       if neg then (if acc = i64Min then .ub else .ok (-acc) (off + n))   -- `acc = -acc`
       else .ok acc (off + n)
     else
-      if neg then .ok (toI64 ((two64 - toU64 acc) % two64)) (off + n)    -- `static_cast<int64_t>(0 - acc)`
+      -- uint64_t accumulator: `result = neg ? (acc > INT64_MAX ? INT64_MIN : -int64_t(acc)) : int64_t(acc)`
+      if neg then .ok (if toU64 acc > two63 - 1 then i64Min else -toI64 (toU64 acc)) (off + n)
       else .ok (toI64 (toU64 acc)) (off + n)
 
 /-- `Tokenizer::int64` on the buffer `buf`; `signed` = the accumulator is an `int64_t`. -/
